@@ -27,12 +27,18 @@ type Mutex struct {
 
 // Lock locks m.
 func (m *Mutex) Lock() {
+	if simrt.Exiting() {
+		return // a task being torn down leaves the real primitives alone
+	}
 	simrt.AcquireMutex(&m.m, unsafe.Pointer(m))
 	m.real.Lock()
 }
 
 // TryLock tries to lock m.
 func (m *Mutex) TryLock() bool {
+	if simrt.Exiting() {
+		return true
+	}
 	if !simrt.InTask() {
 		return m.real.TryLock()
 	}
@@ -45,6 +51,9 @@ func (m *Mutex) TryLock() bool {
 
 // Unlock unlocks m.
 func (m *Mutex) Unlock() {
+	if simrt.Exiting() {
+		return
+	}
 	if !simrt.ReleaseMutex(&m.m) {
 		panic("sync: unlock of unlocked mutex")
 	}
@@ -59,12 +68,18 @@ type RWMutex struct {
 
 // Lock locks rw for writing.
 func (rw *RWMutex) Lock() {
+	if simrt.Exiting() {
+		return
+	}
 	simrt.AcquireWrite(&rw.m, unsafe.Pointer(rw))
 	rw.real.Lock()
 }
 
 // TryLock tries to lock rw for writing.
 func (rw *RWMutex) TryLock() bool {
+	if simrt.Exiting() {
+		return true
+	}
 	if !simrt.InTask() {
 		return rw.real.TryLock()
 	}
@@ -77,6 +92,9 @@ func (rw *RWMutex) TryLock() bool {
 
 // Unlock unlocks rw for writing.
 func (rw *RWMutex) Unlock() {
+	if simrt.Exiting() {
+		return
+	}
 	if !simrt.ReleaseWrite(&rw.m) {
 		panic("sync: Unlock of unlocked RWMutex")
 	}
@@ -85,12 +103,18 @@ func (rw *RWMutex) Unlock() {
 
 // RLock locks rw for reading.
 func (rw *RWMutex) RLock() {
+	if simrt.Exiting() {
+		return
+	}
 	simrt.AcquireRead(&rw.m, unsafe.Pointer(rw))
 	rw.real.RLock()
 }
 
 // TryRLock tries to lock rw for reading.
 func (rw *RWMutex) TryRLock() bool {
+	if simrt.Exiting() {
+		return true
+	}
 	if !simrt.InTask() {
 		return rw.real.TryRLock()
 	}
@@ -103,6 +127,9 @@ func (rw *RWMutex) TryRLock() bool {
 
 // RUnlock undoes a single RLock.
 func (rw *RWMutex) RUnlock() {
+	if simrt.Exiting() {
+		return
+	}
 	if !simrt.ReleaseRead(&rw.m) {
 		panic("sync: RUnlock of unlocked RWMutex")
 	}
@@ -125,6 +152,9 @@ type WaitGroup struct {
 
 // Add adds delta to the counter.
 func (wg *WaitGroup) Add(delta int) {
+	if simrt.Exiting() {
+		return
+	}
 	simrt.WGAdd(&wg.m, delta)
 	wg.real.Add(delta)
 }
@@ -134,6 +164,9 @@ func (wg *WaitGroup) Done() { wg.Add(-1) }
 
 // Wait blocks until the counter is zero.
 func (wg *WaitGroup) Wait() {
+	if simrt.Exiting() {
+		return
+	}
 	simrt.WGWait(&wg.m, unsafe.Pointer(wg))
 	wg.real.Wait()
 }
@@ -146,6 +179,9 @@ type Once struct {
 
 // Do calls f once.
 func (o *Once) Do(f func()) {
+	if simrt.Exiting() {
+		return
+	}
 	if !simrt.InTask() {
 		o.real.Do(func() { o.m.State = 1; f(); o.m.State = 2 })
 		return
@@ -230,6 +266,9 @@ func NewCond(l Locker) *Cond { return &Cond{L: l, real: sync.NewCond(l)} }
 
 // Wait waits for a signal.
 func (c *Cond) Wait() {
+	if simrt.Exiting() {
+		return
+	}
 	if !simrt.InTask() {
 		c.real.Wait()
 		return
